@@ -1125,6 +1125,10 @@ func enumerate(t *vlib.T) {
 			}
 		}
 	}
+	// 1g. the included name is registered again between two renders on one engine (rereg.go)
+	if !enumerateRereg(t) {
+		return
+	}
 	// 1r. relative names: the include under test names its target as ./x, ../x, ./d/x or ../../x from a template at
 	// top level or in a (nested) sub-directory; the target - taken relative to the directory of the template the tag
 	// is written in - is fine, extends, missing, fails at render, does not parse, fails in the loader or includes a
@@ -1467,7 +1471,10 @@ func main() {
 			"the template the name denotes relative to the tag's template being fine (plain / extending), missing, failing at render, unparsable, unloadable (loader I/O error) or including a missing template, nothing being registered under the name as written - every option set, name form, placement and tokenizer; only a missing target may be swallowed by ignore missing; " +
 			"chain-loader dimension: nothing is registered on the engine, whose only loader is a twig.ChainLoader of 1-3 members; exactly one member has the target (fine, extending, failing at render, unparsable, failing to load with an I/O error, including a missing template; for a missing target no member has it) " +
 			"and stands first, in the middle or last, another member holds all other templates - every target kind, option set, name form (also relative names), placement; only a target that no member has may be swallowed by ignore missing; " +
-			"null-chain family: include chains n0 -> … -> n3 of depth 1-3 in which x is bound to null on the way (with {'x': null}, with {'x': undefined_name}, set x = null, a loop variable iterating over [null, 'F']) at every level, " +
+			"re-registration family: on one engine (cache on / auto-reload on: RegisterString or ParseTemplate+RegisterTemplate; cache off / development mode: a loader whose source changes) the page is rendered, the included name gets another meaning " +
+				"(absent, two bodies differing in text, variables read and variables set, a body that includes a missing template, a body that fails at render, a body that extends - all 25 ordered pairs), the page is rendered again and must equal a fresh engine that only ever held the final templates " +
+				"(same output, same error / no error) - all 16 option sets x 7 placements x static / computed name (non-trivial when a fresh engine renders the two meanings differently); " +
+				"null-chain family: include chains n0 -> … -> n3 of depth 1-3 in which x is bound to null on the way (with {'x': null}, with {'x': undefined_name}, set x = null, a loop variable iterating over [null, 'F']) at every level, " +
 			"while the outermost x comes from the render context, a set or a loop variable of n0 (or is absent), crossed with every combination of plain / with / sandboxed / only includes below and of set / for statements in the templates in the middle; every template prints x, its truth value, y and i before and after its include and must see exactly what the model says " +
 			"(non-trivial when a template at least one include below the null binding reads x while a non-null x exists further out); " +
 			"a case is non-trivial when information could flow in either direction (the includer defines a variable, `with` passes one, the included template sets one, runs a loop " +
